@@ -588,7 +588,22 @@ fn walk_tokens(ts: proc_macro2::TokenStream, roots: &mut BTreeSet<String>, mods:
     let is_colon2 = |i: usize| -> bool {
         matches!((toks.get(i), toks.get(i + 1)), (Some(TT::Punct(a)), Some(TT::Punct(b))) if a.as_char() == ':' && b.as_char() == ':' && a.spacing() == proc_macro2::Spacing::Joint)
     };
+    let mut skip_until = 0usize;
     for i in 0..toks.len() {
+        if i < skip_until {
+            continue;
+        }
+        // `use a::{b::c, d};` — only `a` starts a path; the nested names are not crate roots
+        if let TT::Ident(id) = &toks[i] {
+            if id == "use" {
+                let end = (i..toks.len()).find(|&j| matches!(&toks[j], TT::Punct(p) if p.as_char() == ';')).unwrap_or(toks.len());
+                if let Some(TT::Ident(root)) = toks[i + 1..end].iter().find(|t| matches!(t, TT::Ident(_))) {
+                    roots.insert(root.to_string().trim_start_matches("r#").to_string());
+                }
+                skip_until = end;
+                continue;
+            }
+        }
         match &toks[i] {
             TT::Group(g) => walk_tokens(g.stream(), roots, mods),
             TT::Ident(id) => {
